@@ -720,6 +720,107 @@ fn crash_state_start(cov: &mut Cov, errors: &mut Vec<String>) -> Option<Found> {
     None
 }
 
+/// The real executable under a file-size limit (`ulimit -f`, a disk quota in miniature; SIGXFSZ
+/// ignored so that writes fail with an error): versions are added until the database cannot grow any
+/// more and a few requests beyond. Requests may fail; every *acknowledged* version must be the child
+/// of its parent right away, and at the end the chain walks from the base through exactly the
+/// acknowledged versions, in order, to "no child".
+pub fn quota_walk_part(property: &str, cov: &mut Cov, errors: &mut Vec<String>) -> Option<Found> {
+    use crate::http::{socket_request, Framing};
+    use crate::net::{free_port, server_bin, Proc};
+    use crate::ops::{Req, Resp};
+    use std::time::Duration;
+    let Some(bin) = server_bin() else {
+        errors.push("server binary not built".into());
+        return None;
+    };
+    for (blocks, seg_len) in [(96u32, 3000usize), (300, 9000), (160, 700)] {
+        let dir = ScratchDir::new("c01quota");
+        let mut started = None;
+        for _ in 0..3 {
+            let port = free_port()?;
+            let addr = format!("127.0.0.1:{port}");
+            let args: Vec<String> = vec!["-c".into(), format!("trap '' XFSZ; ulimit -f {blocks} && exec \"$0\" \"$@\""), bin.to_string_lossy().to_string(), "--listen".into(), addr.clone(), "--data-dir".into(), dir.path().to_string_lossy().to_string()];
+            if let Ok(p) = Proc::start(std::path::Path::new("/bin/sh"), &args, &[], &[addr.clone()], Duration::from_secs(20)) {
+                started = Some((p, addr));
+                break;
+            }
+        }
+        let Some((mut proc, addr)) = started else {
+            errors.push("cannot start the server executable under a file-size limit".into());
+            return None;
+        };
+        let fail = |m: String| Some(Found { property: property.into(), signature: format!("{property}:quota {}", m.split_whitespace().take(5).collect::<Vec<_>>().join(" ")), msg: format!("[the real executable under `ulimit -f {blocks}` (a full disk in miniature), {seg_len}-byte versions] {m}"), replay: json!({"origin": "quota-walk", "case": 0}) });
+        let to = Duration::from_secs(30);
+        let call = |client: Uuid, req: &Req| crate::subject::Subject::decode_http(req, &socket_request(&addr, &crate::subject::Subject::build_http(client, req), Framing::ContentLength, to));
+        let c = Uuid::new_v4();
+        let mut acked: Vec<(Uuid, Uuid, Vec<u8>)> = vec![];
+        let mut parent = Uuid::nil();
+        let mut failures = 0usize;
+        for i in 0..400usize {
+            let data: Vec<u8> = (0..seg_len).map(|x| (x as u8).wrapping_mul(7).wrapping_add(i as u8)).collect();
+            match call(c, &Req::AddVersion { parent, data: data.clone() }) {
+                Resp::AddOk { vid, .. } => {
+                    match call(c, &Req::GetChild { parent }) {
+                        Resp::Found { vid: v2, data: d2, .. } if v2 == vid && d2 == data => {}
+                        Resp::Error(_) => {}
+                        o => {
+                            proc.kill9();
+                            return fail(format!("add-version #{i} was acknowledged with id {vid}, but the child of its parent is then served as {}", o.short()));
+                        }
+                    }
+                    acked.push((vid, parent, data));
+                    parent = vid;
+                }
+                Resp::Error(_) => {
+                    failures += 1;
+                    if failures >= 6 {
+                        break;
+                    }
+                }
+                Resp::AddConflict { expected } => {
+                    // a request that failed may have taken effect (the answer was an error): follow the server
+                    failures += 1;
+                    if failures >= 6 {
+                        break;
+                    }
+                    let _ = expected;
+                    break;
+                }
+                o => {
+                    proc.kill9();
+                    return fail(format!("add-version #{i} was answered {}", o.short()));
+                }
+            }
+        }
+        cov.evaluations += acked.len() as u64;
+        cov.hit(format!("quota-walk|limit={blocks}-blocks|failures-seen={}", failures.min(1)));
+        cov.count("quota_walk_acknowledged_versions", acked.len() as u64);
+        // the final walk (reads need no space; a read that fails is tried again a few times)
+        let mut p = Uuid::nil();
+        for (i, (vid, par, data)) in acked.iter().enumerate() {
+            let mut r = call(c, &Req::GetChild { parent: p });
+            for _ in 0..3 {
+                if !matches!(r, Resp::Error(_)) {
+                    break;
+                }
+                std::thread::sleep(Duration::from_millis(100));
+                r = call(c, &Req::GetChild { parent: p });
+            }
+            match r {
+                Resp::Found { vid: v2, parent: q, data: d2 } if v2 == *vid && q == *par && d2 == *data => p = v2,
+                Resp::Error(_) => break,
+                o => {
+                    proc.kill9();
+                    return fail(format!("{} versions were acknowledged; the walk from the base reaches step {i} and is answered {} where the acknowledged version {vid} belongs", acked.len(), o.short()));
+                }
+            }
+        }
+        proc.kill9();
+    }
+    None
+}
+
 fn kill_loop(seed: u64, cycles: usize, shard: Shard, cov: &mut Cov, errors: &mut Vec<String>) -> Option<Found> {
     use crate::http::{socket_request, Framing};
     use crate::net::{free_port, server_bin, Proc};
